@@ -534,6 +534,40 @@ class Payload:
 
         return Payload(ans)
 
+    def __rtruediv__(self, other):
+        """__rtruediv__"""
+
+        assert not isinstance(other, Payload)
+
+        return Payload(other / self.value)
+
+    def __itruediv__(self, other):
+        """__itruediv__"""
+
+        if isinstance(other, Payload):
+            self.value = self.value / other.value
+        else:
+            self.value = self.value / other
+
+        return self
+
+    def __floordiv__(self, other):
+        """__floordiv__"""
+
+        if isinstance(other, Payload):
+            ans = self.value // other.value
+        else:
+            ans = self.value // other
+
+        return Payload(ans)
+
+    def __rfloordiv__(self, other):
+        """__rfloordiv__"""
+
+        assert not isinstance(other, Payload)
+
+        return Payload(other // self.value)
+
     def __rmul__(self, other):
         """__rmul__"""
 
